@@ -15,16 +15,25 @@ pub fn run(ctx: &mut Ctx) -> bool {
             ctx.rule = "Cases are positions: every position on generated weighted walks (engine follows its own successors), constructive placements (general, castle, en passant, promotion, check, near-mate families) and the exhaustive castling family E1 / strided or complete en passant family E2. Oracle: independent FIDE rules implementation; engine move multiset must equal the legal move multiset. Non-trivial = the position carries a rule-interaction label (in check, double check, castling legal or denied by attack / king adjacency, en passant pseudo-legal / legal / illegal by pin, promotion available, pinned piece or illegal king walk, checkmate, stalemate); distinct by position.".into();
             ctx.assumptions = vec!["the oracle (harness/src/oracle.rs) implements the FIDE rules: validated each run against six published perft totals and 22 hand-verified rule positions".into()];
             movegen::run_c01_c02(ctx, movegen::Which::C01);
+            if ctx.tier == crate::runner::Tier::Thorough {
+                crate::fuzzrun::campaign(ctx, "fuzz_movegen", "C01", 40_000, 64);
+            }
         }
         "C02" => {
             ctx.rule = "Cases are (parent position, all generated successors): parents on walks of the engine's own successors (incl. promotion-rich walks), constructive placements, E1/E2 families. Oracle: apply() of the independent rules implementation; each successor must equal it in placement, side to move, four rights, en passant target, both cached king squares, and carry a promotion piece iff the move promotes. Non-trivial = parent offers a castling, en passant, promotion, double step, king move or corner move, or was itself reached by a promotion; distinct by (position, parent-was-promotion).".into();
             ctx.assumptions = vec!["oracle validated each run against published perft totals".into()];
             movegen::run_c01_c02(ctx, movegen::Which::C02);
+            if ctx.tier == crate::runner::Tier::Thorough {
+                crate::fuzzrun::campaign(ctx, "fuzz_movegen", "C02", 40_000, 64);
+            }
         }
         "C13" => {
             ctx.rule = "Cases are capture-only generation chains: root reached by the engine's full generation along a walk (often ending in a double step), then CapturesOnly generation recursively, all branches to depth 3 and one chosen line to depth <= 11, the oracle tracking the true position. At every node the descriptor multiset must equal the legal capturing moves and every successor must equal the oracle's apply() incl. key delta. Non-trivial = node with an en passant target set at it or anywhere above it in the chain, or with a capture onto the last rank; distinct by (position, depth in chain).".into();
             ctx.assumptions = vec!["oracle validated each run against published perft totals".into()];
             movegen::run_c13(ctx);
+            if ctx.tier == crate::runner::Tier::Thorough {
+                crate::fuzzrun::campaign(ctx, "fuzz_movegen", "C13", 40_000, 64);
+            }
         }
         "C04" => {
             ctx.rule = "Cases are games: a legal start (startpos, corpus FEN, constructed castle/promotion/en-passant placement) plus a weighted random legal move list in UCI text, 0-200 plies. After EVERY prefix: the text applier's board equals the oracle position (placement, side, rights, en passant target, king squares) and its key equals the from-scratch key; it equals the generator-chain board field for field incl. key; every generated successor printed as text and replayed reproduces itself; `position` on the whole list and on sampled prefixes equals the incremental result and fills the repetition table with plies+1 entries. evaluations = prefixes checked. Non-trivial = game containing at least one castling, en passant, promotion, double step answering a double step, or a rook with its right leaving / being captured on a corner; distinct by (start, move list).".into();
@@ -35,6 +44,9 @@ pub fn run(ctx: &mut Ctx) -> bool {
             ctx.rule = "Cases are steps of histories: for each move of a generated game the three producers (generator successor, text applier, FEN loader of the resulting position) must each give key == key recomputed from scratch (placement, side, four rights, en passant file) judged per step by the key delta, all three must agree, and any position met again by another route must have the same key; plus explicitly constructed transposition pairs (reordered last four plies reaching the same position), single-component mutations (keys must differ), and the exhaustive pairwise distinctness of the 781 constants. Non-trivial step = en passant capture, promotion, capture-promotion, castling, double step while an en passant target is set, right lost by rook capture; transposition pairs and mutations count as non-trivial cases; distinct by (position, move).".into();
             ctx.assumptions = vec!["scratch key recomputed through ZobristHasher's public getters only".into(), "oracle validated each run against published perft totals".into()];
             hash::run_c05(ctx);
+            if ctx.tier == crate::runner::Tier::Thorough {
+                crate::fuzzrun::campaign(ctx, "fuzz_movegen", "C05", 40_000, 64);
+            }
         }
         "C06" => {
             ctx.rule = "Cases are placements with one king per side (kings may be adjacent; legal or not regarding whose turn it is), loaded through from_fen; is_check is asked for BOTH colours and compared with the oracle's attack test (which goes from each enemy man to the king, the engine goes from the king outwards). Families: the complete three-man basis E4 (both kings on every ordered square pair x one further man of every kind and colour on every square), a strided four-man family (attacker + potential blocker), random sparse / dense / kings-close placements. Non-trivial = king on the rim, adjacent kings, an enemy pawn diagonally adjacent to a king (attacking or behind), or a man standing on the line between a king and an enemy slider; distinct by placement.".into();
@@ -50,6 +62,9 @@ pub fn run(ctx: &mut Ctx) -> bool {
             ctx.rule = "Cases are strings: arbitrary unicode strings, six-field-shaped strings with per-field garbage (multi-byte characters, over-long rows, digits 0/9, two-byte en passant fields, huge/negative counters), FENs of generated legal positions with half-move clock 0..200 and move number 1..9000 (dense at 255/256/257), and 0-3 character-level mutations of those. Oracle: from_fen never unwinds; when the independent strict reader says the string is a well-formed FEN of a legal position with counters in that range, from_fen must return Ok with exactly that placement, side, rights, en passant target, king squares and the from-scratch key. Black-box: for generated strings the loader rejects, `walleye --fen=<s> -T -d 1` prints the loader's error, exits 0, no panic. Non-trivial = string with exactly six space-separated fields, or an accepted FEN with a counter above 255 or an en passant square; distinct by string.".into();
             ctx.assumptions = vec!["strict FEN reader in harness/src/oracle.rs (independent of board.rs)".into(), "a FEN with counters outside 0..=200 / 1..=9000 or a non-standard castling field order may be accepted or rejected (only no-panic is required)".into()];
             fen::run_c15(ctx);
+            if ctx.tier == crate::runner::Tier::Thorough {
+                crate::fuzzrun::campaign(ctx, "fuzz_fen", "C15", 5_000_000, 120);
+            }
         }
         "C09" => {
             ctx.rule = "Pure part: cases are (wtime, btime, winc, binc, movestogo, side) tuples from a mixture of negative, zero, 1..200 (dense at 99/100/101), 10^2..10^7, powers of two up to 2^62 and i128 extremes, movestogo absent / 1..40 / 10^4 / u32::MAX, plus the exhaustive grid clock 0..=400 x inc {0,1,50,1000} x movestogo {absent,1,30} x both colours. Oracle (upper bounds only, +1 ms rounding, 1e-9 relative for f64 at huge values): (i) result unchanged when the opponent's clock and increment are replaced; (ii) clock > 100 => slice <= 0.8*(clock-100)/mtg with mtg = 30 when absent; (iii) clock <= 100 and inc <= 0 => 0; (iv) slice <= max(clock,0) except the listed known finding F6. parse_go_command is checked on generated token lists (fields in any order, ignorable tokens at key boundaries). Non-trivial = clock within 5 ms of the margin, or the two clocks differ by more than 2x, or an increment-only case; for parsing, a list containing ignored tokens; distinct by parameter tuple.".into();
@@ -112,6 +127,36 @@ pub fn run(ctx: &mut Ctx) -> bool {
 }
 
 pub fn replay(prop: &str, _family: &str, case: &Value) -> CaseResult {
+    // fuzz artifacts: decoded with the same function the fuzz target uses, checked without libFuzzer
+    if let Some(bytes) = crate::fuzzrun::bytes_of(case) {
+        if prop == "C15" {
+            return match std::str::from_utf8(&bytes) {
+                Ok(s) => fen::c15_string(s, &mut crate::runner::Stats::new()),
+                Err(_) => Ok(()),
+            };
+        }
+        let Some((start, choices)) = crate::fuzzdecode::decode_movegen(&bytes) else { return Ok(()) };
+        let mut p = start.clone();
+        let mut moves = vec![];
+        for &c in &choices {
+            let mut ms = p.legal_moves();
+            if ms.is_empty() {
+                break;
+            }
+            ms.sort();
+            let m = crate::gen::pick_weighted(&p, &ms, c);
+            p = p.apply(&m);
+            moves.push(m);
+        }
+        let mut st = crate::runner::Stats::new();
+        return match prop {
+            "C01" => movegen::walk_check(movegen::Which::C01, &start, &moves, &mut st),
+            "C02" => movegen::walk_check(movegen::Which::C02, &start, &moves, &mut st),
+            "C05" => hash::c05_case(&start, &moves, &mut st, &mut std::collections::HashMap::new()),
+            "C13" => movegen::c13_case_depth(&start, &moves, &[0, 0, 0, 0], 2, &mut st),
+            _ => Err(format!("no fuzz replay for property {}", prop)),
+        };
+    }
     match prop {
         "C01" => movegen::replay_c01_c02(movegen::Which::C01, case),
         "C02" => movegen::replay_c01_c02(movegen::Which::C02, case),
